@@ -42,5 +42,5 @@ for j in jobs:
 def run_wt(js):
     for j in js:
         run(j)
-with ThreadPoolExecutor(max_workers=3) as ex:
+with ThreadPoolExecutor(max_workers=4) as ex:
     list(ex.map(run_wt, by_wt.values()))
